@@ -24,7 +24,7 @@
     12  a plain peer cannot decode what Write emitted under the mask                     (oracle) *)
 From Coq Require Import List ZArith Bool NArith Lia.
 From Verif Require Import Base.Bytes Base.BE Wire.TType Wire.WVal Wire.Codec Wire.Schema Wire.Value Wire.Std
-  Wire.Masked Corr.C02.
+  Wire.Masked Wire.MaskedHalfway Corr.C02.
 From Verif Require Mask.Path Mask.Desc Mask.Trie Mask.Spec.
 Import ListNotations.
 Open Scope Z_scope.
@@ -130,6 +130,19 @@ Definition check (e : env) (c : case) : list N :=
                    | _ => [1%N] end
                | Err (EUnionCount _) | Err ESetDup => if is_err oerr then [] else [1%N]
                | Err ENilUnion => match oerr with OPanic => [] | _ => [1%N] end
+               | Err _ => [8%N]
+               end) ++
+              (* correspondence: the same object written once more after Set_FieldMask(nil)
+                 (field_mask_halfway: the sub objects keep what the first Write passed them) *)
+              (match second_write cfg m None e s v with
+               | Ok r =>
+                   match again_err with
+                   | OOk => match dec_full again_bytes with
+                            | Some w' => if counts_ok r && weq_mod false (cook r) w' then [] else [1%N]
+                            | None => [1%N] end
+                   | _ => [1%N] end
+               | Err (EUnionCount _) | Err ESetDup => if is_err again_err then [] else [1%N]
+               | Err ENilUnion => match again_err with OPanic => [] | _ => [1%N] end
                | Err _ => [8%N]
                end) ++
               (* oracle: well-formed encoding, whatever the model says *)
